@@ -123,3 +123,9 @@ Example c02_example_reentrant :
   | Fail _ _ => False
   end.
 Proof. vm_compute. split; reflexivity. Qed.
+
+(* no injection point of the extended model holds its own holder either *)
+From IocVerif Require Import Proofs.FactoryXInv.
+Theorem c02_never_self_extended : forall s x o st,
+  run_xt repaired s x = (o, Ok st) -> forall h k v, k < 100 -> In v (field_of st h k) -> v <> VOrig h.
+Proof. intros s x o st H. exact (run_xt_never_self repaired s x o st eq_refl H). Qed.
